@@ -201,7 +201,9 @@ type c14Blk struct {
 	Mempool bool     `json:"mempool"`
 }
 
-var c14Scripts = [][]byte{{}, {0x51}, {0x76, 0xa9, 0x14, 1, 2, 3, 4, 5, 6, 7, 8, 9, 10, 11, 12, 13, 14, 15, 16, 17, 18, 19, 20, 0x88, 0xac}, {0x6a, 0x02, 0xca, 0xfe}}
+var c14Scripts = [][]byte{{}, {0x51}, {0x76, 0xa9, 0x14, 1, 2, 3, 4, 5, 6, 7, 8, 9, 10, 11, 12, 13, 14, 15, 16, 17, 18, 19, 20, 0x88, 0xac}, {0x6a, 0x02, 0xca, 0xfe},
+	// script 4: byte-identical to the serialisation of outpoint 0 (an entry that must be de-duplicated against it)
+	func() []byte { o := c14OutPoint(0); return ref.OutPointBytes(o.Hash, o.Index) }()}
 
 func c14OutPoint(d byte) wire.OutPoint {
 	return wire.OutPoint{Hash: chainhash.Hash{0xa0 + d, 0x01, d}, Index: uint32(d) * 0x01000001}
@@ -539,7 +541,7 @@ func runC14(c *mc.Ctx) {
 
 	// 3. block filters
 	insets := []string{"", "0", "1", "2", "00", "01", "12"}
-	outsets := []string{"", "0", "1", "2", "3", "11", "12", "01", "31"}
+	outsets := []string{"", "0", "1", "2", "3", "11", "12", "01", "31", "4", "41"}
 	var txAlpha []string
 	for _, in := range insets {
 		for _, out := range outsets {
